@@ -108,7 +108,34 @@ def r3(ctx):
                 ctx.check("C20.R3", ff.qualname == ARB + ".spawn_worker" or (ff.qualname == ARB + ".start" and False), key(ff, "worker-ctor"), site(ff, c), "workers are constructed outside spawn_worker", "constructed in spawn_worker")
 
 
+def swallowed_identity_errors(ctx):
+    """a refusal of setgid / initgroups / setuid aborts the worker's boot: none of them sits under an except clause that
+    lets the worker carry on with the identity it has (e.g. the master's supplementary groups)"""
+    repo = ctx.repo
+    from .c05 import _reraises
+    f = ctx.fn(repo.func("gunicorn.util.set_owner_process"))
+    n = 0
+    for c, q in repo.calls_in(f):
+        if q in ("os.setgid", "os.setuid", "os.initgroups", "os.setgroups", "os.setegid", "os.seteuid"):
+            n += 1
+            node = c
+            while True:
+                tr = f.module.enclosing(node, ast.Try)
+                if tr is None:
+                    break
+                if any(node is x or any(node is y for y in ast.walk(x)) for x in tr.body):
+                    for h in tr.handlers:
+                        t = norm(h.type) if h.type is not None else "BaseException"
+                        catches_os = any(k in t for k in ("OSError", "PermissionError", "Exception", "BaseException", "EnvironmentError", "IOError"))
+                        ctx.check("C20.R4", not catches_os or _reraises(repo, f, h), key(f, "identity-error-swallowed|%s|%s" % (q, t)), site(f, h),
+                                  "a failure of %s is caught by `except %s` and the worker carries on: application code runs with an identity that is not the configured one "
+                                  "(e.g. the configured uid with the master's supplementary groups)" % (q, t), "identity errors abort the boot")
+                node = tr
+    ctx.floor("C20.R4", "identity system calls in set_owner_process", n, 3)
+
+
 def r4(ctx):
+    swallowed_identity_errors(ctx)
     repo = ctx.repo
     f = ctx.fn(repo.func(UTIL + ".set_owner_process"))
     g = f.cfg
